@@ -1676,7 +1676,7 @@ class HDKey(Key):
 
         :return HDKey:
         """
-        seed = to_bytes(import_seed)
+        seed = import_seed if isinstance(import_seed, bytes) else to_bytes(import_seed)
         i = hmac.new(b"Bitcoin seed", seed, hashlib.sha512).digest()
         key = i[:32]
         chain = i[32:]
